@@ -250,7 +250,19 @@ func (sc *SlotChain) exit(ctx *EntryContext) {
 		return
 	}
 	for _, s := range sc.stats {
-		s.OnCompleted(ctx)
+		completeSlot(s, ctx)
 	}
 	// relieve the context here
+}
+
+// completeSlot tells one StatSlot that the entry has completed. A panic of that slot is
+// confined to it: every slot that was told "passed" must also be told "completed", or the
+// slots behind the failing one would keep what they acquired for the entry for ever.
+func completeSlot(s StatSlot, ctx *EntryContext) {
+	defer func() {
+		if err := recover(); err != nil {
+			logging.Error(errors.Errorf("%+v", err), "Sentinel internal panic in StatSlot.OnCompleted()")
+		}
+	}()
+	s.OnCompleted(ctx)
 }
